@@ -34,6 +34,24 @@ def year_end_targets(lib, zones):
     return out
 
 
+def year_start_targets(lib, zones):
+    """(zone, year, ts) where the library's own table has a change in the first two days (UTC) of a year, 1950..2037."""
+    import c19worker
+    out = []
+    for z in zones:
+        try:
+            tz, table = c19worker.lib_table(lib, z)
+        except Exception:  # noqa
+            continue
+        for ts, off, dst, ab in table:
+            if ts < -631152000 or ts > 2114380800:
+                continue
+            d = dt.datetime.fromtimestamp(ts, UTC)
+            if d.month == 1 and d.day <= 2:
+                out.append((z, d.year, ts))
+    return out
+
+
 def render_and_read_back(v, data, work, counters, has_valid_abbrev=True, has_valid_dst=True, tag="render"):
     """Render ValidationData with the real ArduinoValidationGenerator, compile, read every item back.
     The two has_valid_* flags of the data set tell the generated *tests* what to compare; they are not a licence to
@@ -140,6 +158,16 @@ def run(tier):
         picked += picked_partial
         if picked:
             per_lib[lib] += 1
+    # ranges STARTING in the year of a change that happens in the first hours of that year (the search must begin at
+    # start_year-01-01T00:00 UTC, not at the zone's local midnight)
+    stgt = [("pytz",) + t for t in year_start_targets("pytz", pz)] + [("dateutil",) + t for t in year_start_targets("dateutil", dz)]
+    rng.shuffle(stgt)
+    per_start = {"pytz": 0, "dateutil": 0}
+    for lib, z, y, ts in stgt:
+        if per_start[lib] >= (25 if q else 300):
+            continue
+        configs.append({"lib": lib, "zone": z, "start": y, "until": y + 1 + (per_start[lib] % 2), "interval": rng.choice([12, 22, 36])})
+        per_start[lib] += 1
     lattice = [(2000, 2010), (2005, 2020), (2010, 2011), (2020, 2037), (2001, 2002)]
     n_lat = 40 if q else 2000
     for _ in range(n_lat):
